@@ -295,15 +295,16 @@ def state_index(ctx):
                    line=d.stmt.lineno)
         ctx.require(found, f"{cn}.state has no `modes is None` default any more")
         # labels
-        lab = [n for n in walk_no_nested(f.node) if isinstance(n, ast.keyword) and n.arg == "mode_names"]
+        lab = [v for v in (ctx.tree.arg_of(n, "mode_names") for n in walk_no_nested(f.node) if isinstance(n, ast.Call))
+               if v is not None]
         ctx.require(lab, f"{cn}.state passes no mode_names")
-        for kw in lab:
-            dv = derives(f.node, kw.value)
+        for kwv in lab:
+            dv = derives(f.node, kwv)
             ok = mp in dv.params or dv.has_call("get_modes")
             positional = dv.has_call("range") or dv.has_call("len") or dv.has_call("enumerate")
             ctx.ob(rule, f.site, ok and not positional, "" if ok and not positional else
                    "mode labels are positions / do not derive from the selected mode indices",
-                   role="labels", line=kw.value.lineno)
+                   role="labels", line=kwv.lineno)
     # Fock: axes are positional among active modes; the label of position j is get_modes()[j]
     f = ctx.tree.func("backends/fockbackend/backend.py", "FockBackend.state")
     mp = f.pos_params[1]
